@@ -1,7 +1,9 @@
 (* Base.v — shared definitions: results with explicit Panic, usize arithmetic, list helpers.
    Model files use the standard library only (so extraction needs only ExtrOcamlBasic). *)
-From Coq Require Export NArith List Bool Lia.
+From Coq Require Export NArith ZArith List Bool Lia ZifyBool ZifyNat ZifyN.
 Export ListNotations.
+(* lia understands / and mod by constants and boolean comparisons *)
+Ltac Zify.zify_post_hook ::= Z.div_mod_to_equations.
 Local Open Scope N_scope.
 
 Arguments N.add : simpl never.
